@@ -225,7 +225,7 @@ CONDITIONS = [
      'what': 'exactly one finaliser per started recording under every fault placement / termination point / sampling '
              'outcome; saved complete recordings replay; sharded by (fault kind, first opcode)',
      'tiers': {'quick': {'bounds': {'L': 2, 'OPS': _QOPS}, 'timeout': 500, 'shards': _sh(_QF, _QOPS), 'witness_shard': _W},
-               'thorough': {'bounds': {'L': 3, 'OPS': _TOPS}, 'timeout': 6000, 'shards': _sh(_TF, _TOPS), 'witness_shard': _W}}},
+               'thorough': {'bounds': {'L': 3, 'OPS': _QOPS}, 'timeout': 6000, 'shards': _sh(_TF, _QOPS + [_o('R')]), 'witness_shard': _W}}},
     {'fn': 'failed_save_leaves_nothing', 'nontrivial': 'save-failed',
      'what': 'a value that fails only at save time: no partial recording is left in any cassette type',
      'tiers': {'quick': {'bounds': {'L': 2, 'OPS': [_o('A', 1), _o('O', 1)]}, 'timeout': 300,
